@@ -1,6 +1,6 @@
 (** C02 — a function never starts before everything it depends on has finished. *)
 From FG Require Import Dag Builder Sched DagFacts EdgeFacts RankFacts BuilderFacts TopoFacts AugFacts BuildFacts
-     SchedInv SafetyFacts CfgFacts StreamInv SI_Queuer SI_Step SI_Stream SafetyInv StreamFacts Opts OptsFacts.
+     SchedInv SafetyFacts CfgFacts StreamInv SI_Queuer SI_Step SI_Stream SafetyInv StreamFacts Opts OptsFacts SelfSignal SelfSignalInv.
 
 (** Call APIs (all eight internal paths, control wrappers, every limit / strategy / include flag /
     set of immediately-resolving futures, every list of external events: completions, failures,
@@ -87,6 +87,24 @@ Proof.
   eapply C02_stream; eassumption.
 Qed.
 Print Assumptions C02_stream_order_for_any_setter_chain.
+
+(** The order also holds when a user future sends the interrupt signal itself, inside a poll of the call
+    ([SelfSignal.run_sig], any signalling function [sg]; known finding F4 concerns the C08 bound only). *)
+Theorem C02_call_when_a_user_future_sends_the_signal : forall ops G p q (rev : bool) a mt ctl lim st incl imm er sg evs i j,
+  build (builder_run ops) = BOk G p q ->
+  (if rev then Path (edges (builder_run ops)) i j else Path (edges (builder_run ops)) j i) -> j <> i ->
+  ended_before (trace (fst (run_sig sg (mk_cfg G rev a mt ctl lim st incl imm er) evs))) j i.
+Proof.
+  intros ops G p q rev a mt ctl lim st incl imm er sg evs i j Hb Hp Hne.
+  pose proof (build_ok_intro ops G p q Hb) as Hok.
+  set (cf := mk_cfg G rev a mt ctl lim st incl imm er).
+  pose proof (inv_run_sig sg cf evs (cfg_ok_mk _ _ _ _ rev a mt ctl lim st incl imm er Hok)) as Hinv.
+  apply (path_ended_before (c_es cf)); [apply (v_trace _ _ Hinv) | | exact Hne].
+  unfold cf. rewrite (mk_cfg_es _ _ _ _ rev a mt ctl lim st incl imm er Hok). destruct rev.
+  - apply (proj2 (Path_flip _ _ _)). apply (user_path_in_built _ _ _ _ _ _ Hok). exact Hp.
+  - apply (user_path_in_built _ _ _ _ _ _ Hok). exact Hp.
+Qed.
+Print Assumptions C02_call_when_a_user_future_sends_the_signal.
 
 (** Non-vacuity: chain 0 -> 1 -> 2, for_each_concurrent; 2 starts only after 0 and 1 ended. *)
 Example C02_example :
